@@ -269,7 +269,7 @@ def one_case(ck, rng, label, crys, chem, ex, cutoff, mode, maxjumps, skipped, cd
     if len(model) > maxjumps:
         skipped["too-many-jumps"] += 1; return None
     # the code's own box (for the record)
-    code_nmax = [int(np.round(np.sqrt(r2 / crys.metric[i, i]))) + 1 for i in range(crys.dim)] + [0] * (3 - crys.dim)
+    code_nmax = [int(np.ceil(np.sqrt(r2 / crys.metric[i, i]))) + 1 for i in range(crys.dim)] + [0] * (3 - crys.dim)   # cutoff/|a_i| + 1 (for the record)
     t0 = time.time()
     snap0 = sg.state_snapshot(crys)
     try:
@@ -363,7 +363,7 @@ def report(ck, res, code, nmodel):
     """turn one evaluated case into counters / violations"""
     rep = {k: res.get(k) for k in ("label", "crys", "chem", "cutoff", "arg", "nmax", "code_nmax", "njumps", "nclasses", "nG")}
     rep["closestdistance"] = res.get("arg")
-    kind = "%s|cd=%s|%s" % (res["label"].split("-")[0] if res["label"].startswith(("rand", "farend", "multiW", "through", "history")) else "named",
+    kind = "%s|cd=%s|%s" % (res["label"].split("-")[0] if res["label"].startswith(("rand", "farend", "multiW", "through", "history", "noreduce")) else "named",
                             "default" if res["arg"] is None else ("list" if isinstance(res["arg"], list) else "scalar"),
                             "boxsmall" if res.get("box_small") else "boxok") + ("|obstructed" if res.get("nblocked") else "") + ("|far-end-obstructor" if res.get("nfar") else "") + ("|pass-through-d0" if res.get("nthrough") else "") + ("|shared-dx-%dW" % res.get("nwyck", 1) if res.get("nshared") else "")
     ck.case(key=(res["label"], res["crys"], res["chem"], round(res["cutoff"], 9), res["arg"]), nontrivial=res.get("njumps", 0) >= 2, kind=kind,
@@ -480,9 +480,10 @@ def run(ck):
                    "crys.G taken from the implementation (validated per operation by op_okb; completeness is property C18)"]
     ck.theorems()
     rng = ck.rng
+    from . import gen
     skipped = {"too-large": 0, "near-threshold": 0, "too-many-jumps": 0, "no-cutoff": 0, "irrational-geometry": 0}
     cases = []
-    n = ck.n(26, 150)
+    n = ck.n(18, 150)
     maxjumps = ck.n(120, 260)
     for label, crys, chem, ex in sg.pool(rng, n, random_frac=0.7, nchem_max=3, maxatoms=3, scales=(1.0, 1.0, 0.5, 2.0, 4.0)):
         cutoff = choose_cutoff(ex, chem, rng, maxjumps)
@@ -494,23 +495,46 @@ def run(ck):
             if res is not None: cases.append(res)
     skipped["irrational-geometry"] += sg.pool.rejected
     # skewed low-symmetry cells, long cutoffs: the regime where |R_k| <= r/|a_k| + 1 is not enough
-    nskew = ck.n(2, 8)
+    nskew = ck.n(1, 6)
     tries = 0
     found = 0
     while found < nskew and tries < 40:
         tries += 1
         dim = 2 if ck.quick or rng.random() < 0.7 else 3
-        r = sg.random_rational_crystal(rng, dim, maxatoms=1, nchem=1, skew=True)
+        if ck.quick:      # deterministic regression probe (reverse of fix 3e34d82): reduced oblique cell, cutoff of ~14 lattice constants
+            r = ("oblique-skew", gen.crystal.Crystal(np.array([[1., 0.], [0.47, 0.85]]).T, [np.zeros(2)]))
+        else:
+            r = sg.random_rational_crystal(rng, dim, maxatoms=1, nchem=1, skew=True)
         if r is None: continue
         ex = sg.Exact(r[1])
         if not ex.ok: continue
         crys = r[1]
-        # shortest cutoff for which the code's box misses a lattice vector
-        cand = skew_cutoff(ex, crys, rmax=(12.5 if dim == 2 else 5.6))
+        # shortest cutoff for which a box |R_k| <= ceil(cutoff/|a_k|) + 1 misses a lattice vector
+        cand = skew_cutoff(ex, crys, rmax=(19.0 if dim == 2 else 6.5))
         if cand is None: continue
         res = one_case(ck, rng, "rand-" + r[0], crys, 0, ex, cand, "default", 2500, skipped)
         if res is not None:
             cases.append(res); found += 1
+    # strongly sheared user cells kept by noreduce=True (shear 4..6): the jumps along the sheared direction have lattice
+    # coefficients beyond cutoff/|a_i| + 1 -- deterministic, always run
+    a = np.array
+    probes = [("sheared-square-4", lambda: gen.crystal.Crystal(a([[1., 0.], [4., 1.]]).T, [np.zeros(2)], noreduce=True), 0, 1.001),
+              ("sheared-square-6", lambda: gen.crystal.Crystal(a([[1., 0.], [6., 1.]]).T, [np.zeros(2)], noreduce=True), 0, 1.45),
+              ("sheared-rect-5-2sp", lambda: gen.crystal.Crystal(a([[1., 0.], [5., 1.25]]).T, [[a([0., 0.])], [a([.5, .5])]], noreduce=True), 0, 1.2501),
+              ("sheared-ortho-2site", lambda: gen.crystal.Crystal(a([[1., 0, 0], [0, 1.1, 0], [4., 3.3, 1.2]]).T,
+                                                                 [a([0., 0, 0]), a([.5, .5, .5])], noreduce=True), 0, 1.2005)]
+    if not ck.quick:
+        probes += [("sheared-square-5", lambda: gen.crystal.Crystal(a([[1., 0.], [5., 1.]]).T, [np.zeros(2)], noreduce=True), 0, 2.01),
+                   ("sheared-hex-4", lambda: gen.crystal.Crystal(a([[1., 0.], [-.5 + 4, math.sqrt(3) / 2]]).T, [np.zeros(2)], noreduce=True), 0, 1.001)]
+    nprobe = 0
+    for label, make, chem, cutoff in probes:
+        crys = make(); ex = sg.Exact(crys)
+        if not ex.ok: raise RuntimeError("regression probe %s is not rational" % label)
+        res = one_case(ck, rng, "noreduce-" + label, crys, chem, ex, cutoff, "default", 400, skipped,
+                       cd_override=(None if crys.Nchem == 1 else 0.25))
+        if res is None: raise RuntimeError("regression probe %s was skipped (%s)" % (label, skipped))
+        cases.append(res); nprobe += 1
+    ck.extra["sheared_noreduce_probes"] = nprobe
     # species occupying >= 2 Wyckoff sets, cutoff beyond the shortest lattice vector: inequivalent jumps (i,i,R), (j,j,R)
     # share one displacement vector -- each must still appear, in its own class
     from . import gen
@@ -610,7 +634,7 @@ def run(ck):
     cand = [c for c in cases if c.get("nblocked") and "_crys" in c and c.get("arg") is not None and c["njumps"] <= 150]
     rng.shuffle(cand)
     nhist = 0
-    for b in cand[:ck.n(4, 20)]:
+    for b in cand[:ck.n(3, 20)]:
         crys, ex, chem, cutoff = b["_crys"], b["_ex"], b["chem"], b["cutoff"]
         a0 = b["arg"]
         big = max(a0) if isinstance(a0, list) else a0
@@ -655,7 +679,7 @@ def run(ck):
         code, nmodel = codes.get(id(c), (None, c.get("njumps")))
         report(ck, c, code, nmodel)
     # nnlist (supporting information)
-    nn_cases = [c for c in cases if "_ex" in c and c["njumps"] <= 700]
+    nn_cases = [c for c in cases if "_ex" in c and c["njumps"] <= ck.n(300, 700)]
     for c in nn_cases[:ck.n(8, 40)] + [c for c in nn_cases if c.get("box_small")][:3]:
         m = nnlist_check(c["_ex"], c["_crys"], c["chem"], c["cutoff"], c["c2"], c["nmax"])
         if m:
@@ -677,7 +701,7 @@ def run(ck):
 def skew_cutoff(ex, crys, rmax):
     """shortest cutoff (just above a shell) for which some lattice vector below the cutoff lies outside the code's box"""
     g = crys.metric; dim = crys.dim
-    N = 16 if dim == 2 else 10
+    N = 26 if dim == 2 else 12
     best = None
     for R in itertools.product(*([range(-N, N + 1)] * dim)):
         q = ex.qf(tuple([ex.D * x for x in R] + [0] * (3 - dim)))
@@ -685,6 +709,6 @@ def skew_cutoff(ex, crys, rmax):
         d = math.sqrt(q / ex.scale)
         if d > rmax or (best is not None and d >= best): continue
         r = d + 1e-4
-        nm = [int(np.round(np.sqrt(r * r / g[k, k]))) + 1 for k in range(dim)]
+        nm = [int(np.ceil(np.sqrt(r * r / g[k, k]))) + 1 for k in range(dim)]          # the (insufficient) box cutoff/|a_k| + 1
         if any(abs(R[k]) > nm[k] for k in range(dim)): best = d
     return None if best is None else best + 1e-4
